@@ -69,7 +69,7 @@ func c54(c *Ctx) {
 		}
 		// lastSentStatus becomes the received value on the send path: the phi's non-initial leaf is the received value
 		okLast := false
-		for _, in := range instrsWhere(f, func(in ssa.Instruction) bool { p, ok := in.(*ssa.Phi); return ok && p.Comment == "lastSentStatus" }) {
+		for _, in := range instrsWhere(f, func(in ssa.Instruction) bool { _, ok := in.(*ssa.Phi); return ok }) {
 			for _, e := range in.(*ssa.Phi).Edges {
 				if recvd(e) {
 					okLast = true
